@@ -442,3 +442,23 @@ EXPLANATION += (" Scale (E4): in KMeans::{fit, predict, kmeans_plus_plus} and BB
                 "compared with a non-zero machine constant ('nearest' and 'not worse' are comparisons between data-derived values; an "
                 "`<= epsilon` early exit returns the first centroid for small-magnitude data).")
 TECHNIQUE += "; scale-homogeneity classification of the comparisons in fit/predict/filter/prune"
+
+
+# ------------------------------------------------------------------ generic: no magnitude is compared with a signed raw element
+_run_pre_magnitude = run
+
+
+def run(ck, prog):
+    _run_pre_magnitude(ck, prog)
+    from sa import magnitude
+    magnitude.run_rule(ck, prog, set(DIMENSION_FILES))
+
+
+# ------------------------------------------------------------------ generic: backward strided scans (`j -= step`) continue exactly while j >= step
+_run_pre_subguard = run
+
+
+def run(ck, prog):
+    _run_pre_subguard(ck, prog)
+    from sa import subguard
+    subguard.run_rule(ck, prog, set(DIMENSION_FILES))
